@@ -14,7 +14,10 @@
          parsed commands returns the SAME requirements and the filters IN THE SAME ORDER with the same names,
          descriptions and enabled flags -- unbounded over values, numbers of filters, conditions and actions;
          the marker comments are attached to the right filter because the parser theorem
-         (CompleteTree.parse_commented_script through PrintTree.set_parses) says so for every commented script.
+         (CompleteTree.parse_commented_script through PrintTree.set_parses) says so for every commented script;
+     (c) C11_history_reload (factory/BuildHistory.v): the same for EVERY set reached from the empty set by a
+         history of addfilter / updatefilter (documented definitions) / replacefilter / removefilter /
+         enablefilter / disablefilter / movefilter -- the quantifier of the property.
    Hypotheses, besides those of C06: markers start with a non-blank byte, names/descriptions do not end in a
    blank, do not contain their marker, and a name line cannot be taken for a description line or vice versa
    (prefix conditions; all marker pairs used by callers in the harness satisfy them); the requirements have no
@@ -28,7 +31,25 @@ From Coq Require Import List NArith Bool Arith.
 From SV Require Import Bytes Lexer Text TextFacts.
 Import ListNotations.
 Local Open Scope nat_scope.
-From SV Require Import Tables ArgCheck ArgSpec Machine Printer CompleteFacts CompleteTree RenderFacts PrintTree GenTables Ops Build BuildFacts BuildSet Load LoadFacts.
+From SV Require Import Tables ArgCheck ArgSpec Machine Printer CompleteFacts CompleteTree RenderFacts PrintTree GenTables Ops Build BuildFacts BuildSet Load LoadFacts BuildHistory.
+
+(* for every set reached by a history of editing operations with documented definitions: the saved text is accepted and from_parser_result returns the same requirements and the filters in order with the same names, descriptions and enabled flags *)
+Theorem C11_history_reload :
+  forall (loaded : list bytes) (st : bstate) (name_pre desc_pre : bytes) (fuel : nat),
+  reach loaded st ->
+  b_set st <> [] ->
+  5 <= fuel ->
+  marker_ok name_pre ->
+  marker_ok desc_pre ->
+  names_ok name_pre desc_pre (b_set st) ->
+  exists (text : bytes) (ns : list node) (lfs : list lfilter),
+    b_render gen_tables loaded fuel name_pre desc_pre st = BOk text /\
+    parse gen_tables text = Accept ns /\
+    from_parser_result name_pre desc_pre ns = (b_reqs st, lfs) /\
+    map (fun f : lfilter => (lf_name f, lf_desc f, lf_enabled f)) lfs =
+    map (fun f : filter => (f_name f, desc_text (f_desc f), f_enabled f)) (b_set st).
+Proof. exact BuildHistory.history_reload. Qed.
+Print Assumptions C11_history_reload.
 
 (* save, parse, load: same requirements, same names in the same order, same descriptions, same enabled flags *)
 Theorem C11_reload_same :
